@@ -142,7 +142,7 @@ Lemma data_pair_equal v a b :
 Proof.
   unfold eval_data, data_wf. intros Hw He Hi. rewrite <- He.
   destruct (d_el a) as [|x els] using rev_ind; [congruence|]. clear IHels.
-  rewrite !eval_chain_split. destruct (run_all _ els 0%N); auto.
+  rewrite !eval_chain_split. destruct (run_all _ els (v_start v)); auto.
   destruct (d_inv a), (d_inv b); try congruence; destruct (is_some _); auto.
 Qed.
 
@@ -150,11 +150,11 @@ Lemma data_prefix_contra v a b t :
   data_wf a -> d_inv a = true -> d_el b = d_el a ++ t -> t <> [] -> eval_data v a && eval_data v b = false.
 Proof.
   unfold eval_data, data_wf. intros Hw Hi He Ht.
-  destruct (eval_chain (v_nxt v) (d_el b) (d_inv b) 0%N) eqn:Eb; [|apply andb_false_r].
+  destruct (eval_chain (v_nxt v) (d_el b) (d_inv b) (v_start v)) eqn:Eb; [|apply andb_false_r].
   rewrite He in Eb. apply eval_chain_prefix_runs in Eb; auto.
   destruct (d_el a) as [|x els] using rev_ind; [congruence|]. clear IHels.
   rewrite eval_chain_split, Hi. rewrite run_all_app in Eb.
-  destruct (run_all _ els 0%N); auto. simpl in Eb. destruct (v_nxt v x n); simpl in *; auto.
+  destruct (run_all _ els (v_start v)); auto. simpl in Eb. destruct (v_nxt v x n); simpl in *; auto.
 Qed.
 
 Lemma data_prefix_implied v a b t :
